@@ -144,3 +144,23 @@ Definition outcomes (progs : list (list instr)) : list outcome :=
 
 (* register r of thread t in an outcome *)
 Definition oreg (o : outcome) (t : nat) (r : reg) : Z := lookup Nat.eqb r (nth t o []).
+
+(* search for a witness: the first schedule (depth-first) that terminates in an outcome satisfying `bad` *)
+Fixpoint find_bad (fuel : nat) (bad : outcome -> bool) (s : state) : option (list action) :=
+  match fuel with
+  | O => None
+  | S f =>
+    if final s then (if bad (result s) then Some [] else None)
+    else
+      (fix try (acts : list action) : option (list action) :=
+         match acts with
+         | [] => None
+         | a :: r =>
+           match step s a with
+           | Some s' => match find_bad f bad s' with Some p => Some (a :: p) | None => try r end
+           | None => try r
+           end
+         end) (actions s)
+  end.
+Definition witness (progs : list (list instr)) (bad : outcome -> bool) : option (list action) :=
+  find_bad (S (measure (init progs))) bad (init progs).
